@@ -27,7 +27,7 @@ RULE = ("exhaustive: integer series x = sorted subsets of {0..7} (2..6 points qu
         " Also: Weaver requests after random domain histories, an index cut after resampling so that working and reference span different ranges, bounds passed as 0-d / 1-element arrays (must be left untouched), documented defaults by omission."
         " Round-4 classes: infinite bounds (absolute or as ratio), flags and slice arguments positionally in the documented order, series of 1001..1800 samples."
         " Round-5 classes: negative stop (Python slice semantics), pandas Series with absolute bounds."
-        " Round-6 classes: a 'huge' kind (66 000..90 000 samples, all values different, bounds beyond sample 2**16), abscissae in narrow signed integers spanning their type with ratio bounds."
+        " Round-6 classes: a 'huge' kind (66 000..90 000 samples, all values different, bounds beyond sample 2**16, and - round 8 - a left bound strictly inside the gap in front of sample 2**16 / 2**15 / 50 000 / 60 000), abscissae in narrow signed integers spanning their type with ratio bounds."
         " Round-7 classes: truncation after resampling to the same number of points (same length and ends, other grid).")
 REQUIRED_MONITORS = ["c11:truncate", "c11:weaver_truncate", "c11:slice_by_value", "c11:slice_by_index",
                      "c11:truncate_by_index"]
@@ -169,7 +169,19 @@ def run_random_case(ctx, kind_, idx):
                     # "the last hours of the day": both bounds far into the series
                     i1 = int(0.995 * len(x))
                     i0 = min(max(int(0.78 * len(x)), 2 ** 16 + int(rng.integers(0, 300))), i1 - 50)
-                    if rng.integers(0, 2):
+                    if idx % 6 == 0:
+                        # a bound strictly INSIDE the gap in front of a round sample number (2**16, 2**15, 50 000, ...):
+                        # the cut starts at the sample before that number
+                        k_edge = [2 ** 16, 2 ** 15, 50000, 2 ** 16 + 1, 60000, 2 ** 16 - 1][(idx // 6) % 6]
+                        f_edge = float(rng.choice([0.5, 0.25, 0.999]))
+                        l_abs = float(x[k_edge - 1]) + f_edge * float(x[k_edge] - x[k_edge - 1])
+                        info["left_bound_inside_the_gap_before_sample"] = k_edge
+                        span_ = float(x[-1] - x[0])
+                        if rng.integers(0, 2):
+                            l, r, lr, rr, knife = l_abs, float(x[i1]) + 0.25 * float(x[i1 + 1] - x[i1]), False, False, False
+                        else:
+                            l, r, lr, rr, knife = (l_abs - float(x[0])) / span_, (float(x[i1]) - float(x[0])) / span_ - 1e-7, True, True, False
+                    elif rng.integers(0, 2):
                         l, r, lr, rr, knife = float(x[i0]), float(x[i1]) + 0.25 * float(x[i1 + 1] - x[i1]), False, False, False
                     else:
                         span_ = float(x[-1] - x[0])
@@ -221,6 +233,10 @@ def run_random_case(ctx, kind_, idx):
                 wx, wy = (np.array(a).copy() for a in wv.get())
                 rx, ry = (np.array(a).copy() for a in wv.get_reference())
                 l, r, lr, rr, knife = pick_bounds(rng, rx if rng.integers(0, 2) else wx)
+                if kind_ == "huge" and len(wx) > 2 ** 16 + 10:
+                    # left bound inside the gap in front of sample 2**16, right bound at the end of the series
+                    l, r, lr, rr, knife = float(wx[2 ** 16 - 1]) + 0.5 * float(wx[2 ** 16] - wx[2 ** 16 - 1]), float(wx[-1]), False, False, False
+                    info["left_bound_inside_the_gap_before_sample"] = 2 ** 16
                 for arr in (wx, rx):
                     span = float(arr[-1] - arr[0])
                     la = l * span + float(arr[0]) if lr else l
